@@ -114,9 +114,11 @@ def _work(args):
                         raise
                     except Exception as e:
                         rec["variants"].append(variant("interchange", EMPTY, type(e).__name__))
+            from harness.machine import time_limit, CallTimeout, CALL_LIMIT
             try:
-                nf = real.normal_form()
-            except Exception:
+                with time_limit(CALL_LIMIT):
+                    nf = real.normal_form()
+            except (Exception, CallTimeout):
                 nf = None
             if nf is not None:
                 try:
